@@ -189,6 +189,7 @@ def run(T, x, n, tag):
         if any(r["k"].endswith("x") for r in (r1, r2)):
             return None, "outside the exact universe"
     late = False
+    import utype
     if Tc["k"] == "xor" and ok1:
         raw, outp = [], []
         for a in Tc["args"]:
@@ -196,7 +197,7 @@ def run(T, x, n, tag):
             a["_built"] = at
             for val, acc in ((x, raw), (v1, outp)):
                 try:
-                    at(val)
+                    utype.type_transform(val, at)       # how the combinator applies an argument (float([1]) itself would raise)
                     acc.append(True)
                 except Exception:
                     acc.append(False)
